@@ -52,3 +52,71 @@ def is_local_from_call(suffix):
                 return True
         return False
     return p
+
+
+
+def outcomes(root, ev, classify):
+    """abstract execution of a function body under the three-valued atom evaluator `ev`: the set of kinds (classify(expr)) of the
+    values the function can return — through `return`, through the tail expression, or 'try' for a `?` that may propagate.  Both
+    branches of an `if` are taken when its condition is unknown.  The result does not depend on how the decision is written
+    (early return / if-else expression / negated condition / named boolean)."""
+    kinds = set()
+
+    def run(n, tail):
+        """-> may control fall out of the bottom of n"""
+        n = peel(n)
+        if not isinstance(n, dict):
+            return True
+        k = n.get("k")
+        if k == "Block":
+            for st in n.get("stmts", []):
+                if st["k"] == "Let":
+                    if "init" in st and not run(st["init"], False):
+                        return False
+                    continue
+                if not run(st["e"], False):
+                    return False
+            if "expr" in n:
+                return run(n["expr"], tail)
+            return True
+        if k == "If":
+            v = eval3(n["cond"], ev)
+            run(n["cond"], False)
+            falls = False
+            if v is not False:
+                falls = run(n["then"], tail) or falls
+            if v is not True:
+                falls = (run(n["else"], tail) if "else" in n else True) or falls
+            return falls
+        if k == "Ret":
+            if "e" in n:
+                run(n["e"], True)
+            return False
+        if k == "Match":
+            if n.get("src") == "TryDesugar":
+                kinds.add("try")
+                sc = n["scrut"]
+                run(sc["args"][0] if sc.get("args") else sc, False)
+                return True
+            if n.get("src") == "ForLoopDesugar":
+                for a in n["arms"]:
+                    run(a["body"], False)
+                return True
+            run(n["scrut"], False)
+            falls = False
+            for a in n["arms"]:
+                falls = run(a["body"], tail) or falls
+            return falls
+        if k in ("Loop",):
+            run(n.get("body"), False)
+            return True
+        if k in ("Break", "Continue"):
+            return False
+        if tail:
+            kinds.add(classify(n))
+        if n.get("ty") == "!":
+            return False
+        return True
+
+    run(root, True)
+    return kinds
